@@ -154,6 +154,16 @@ fn target_any() -> BoxedStrategy<Target> {
     .boxed()
 }
 
+/// histories in which the broker sends no PUBLISH may run with tiny client-side limits
+fn no_inbound(s: BoxedStrategy<Scenario>) -> BoxedStrategy<Scenario> {
+    (s, prologue_variant_no_inbound())
+        .prop_map(|(mut s, p)| {
+            s.prologue = p;
+            s
+        })
+        .boxed()
+}
+
 fn scenario(rm: BoxedStrategy<Option<u16>>, ev: BoxedStrategy<Ev>, len: std::ops::Range<usize>) -> BoxedStrategy<Scenario> {
     (rm, vec(ev, len), id_offset(2), max_pkt(), prologue_variant())
         .prop_map(|(receive_max, events, id_offset, max_packet_size, prologue)| Scenario { receive_max, max_packet_size, id_offset, prologue, events })
@@ -218,7 +228,7 @@ impl Property for C05 {
             1 => Just(Ev::Settle),
         ]
         .boxed();
-        scenario(Just(None).boxed(), ev, 1..tier.pick(60, 200))
+        no_inbound(scenario(Just(None).boxed(), ev, 1..tier.pick(60, 200)))
     }
 
     fn cases(tier: Tier) -> u32 {
@@ -384,7 +394,7 @@ impl Property for C07 {
             3 => one(sel().prop_map(|sel| Ev::DropStream { sel })),
         ]
         .boxed();
-        scenario_v(Just(None).boxed(), ev, 1..tier.pick(40, 120))
+        scenario_v(rm_small(), ev, 1..tier.pick(40, 120))
     }
 
     fn cases(tier: Tier) -> u32 {
@@ -490,7 +500,8 @@ impl Property for C08 {
             }]),
         ]
         .boxed();
-        scenario_v(Just(None).boxed(), ev, 1..tier.pick(40, 120))
+        // the server's Receive Maximum limits the client's publishes, never what it must acknowledge
+        scenario_v(rm_small(), ev, 1..tier.pick(40, 120))
     }
 
     fn cases(tier: Tier) -> u32 {
@@ -535,7 +546,9 @@ pub struct C09;
 
 /// few identifiers, including pairs that collide when truncated to 8 bits (1/257, 2/258)
 fn c09_pid() -> BoxedStrategy<u16> {
-    prop::sample::select(vec![1u16, 2, 3, 257, 258, 65535]).boxed()
+    // 1..6 are also the identifiers the client's own operations of these histories use: the two
+    // number spaces are independent
+    prop::sample::select(vec![1u16, 2, 3, 2, 3, 4, 5, 6, 257, 258, 65535]).boxed()
 }
 
 fn c09_prologue() -> Vec<Ev> {
@@ -548,7 +561,7 @@ fn c09_prologue() -> Vec<Ev> {
 
 impl Property for C09 {
     const ID: &'static str = "C09";
-    const RULE: &'static str = "sequences over {PUBLISH(QoS 2, identifier in {1,2,3,257,258,65535}, DUP 0/1), PUBREL(identifier)} to a live subscription, interleaved with other traffic; exhaustive over a 6-symbol alphabet on 2 identifiers to a bounded depth. The model's awaiting-PUBREL set decides which PUBLISH is a re-delivery. Non-trivial = a re-delivery before PUBREL and a reuse of the identifier after PUBREL both occur";
+    const RULE: &'static str = "sequences over {PUBLISH(QoS 2, identifier in {1..6,257,258,65535}, DUP 0/1), PUBREL(identifier)} to a live subscription, interleaved with other traffic (inbound QoS 0/1, the client's own QoS 1/2 publishes, subscribes, unsubscribes and their acknowledgements using the same identifier values); exhaustive over a 6-symbol alphabet on 2 identifiers to a bounded depth. The model's awaiting-PUBREL set decides which PUBLISH is a re-delivery. Non-trivial = a re-delivery before PUBREL and a reuse of the identifier after PUBREL both occur";
     type Case = Scenario;
 
     fn strategy(tier: Tier) -> BoxedStrategy<Scenario> {
@@ -559,8 +572,9 @@ impl Property for C09 {
             // QoS 1 traffic reusing the same identifier values must not disturb the QoS 2 state
             1 => in_publish(Just(1u8).boxed(), c09_pid(), Just(Target::Sub(0)).boxed()),
             1 => in_publish(Just(2u8).boxed(), c09_pid(), prop_oneof![Just(Target::None), Just(Target::Unknown)].boxed()),
-            1 => start(vec![(1, OpKind::Pub1), (1, OpKind::Ping)]),
-            1 => ack(deco_ok()),
+            // the client's own exchanges (same identifier values, other direction) run alongside
+            3 => start(vec![(1, OpKind::Pub1), (3, OpKind::Pub2), (1, OpKind::Sub(1)), (1, OpKind::Unsub(0)), (1, OpKind::Ping)]),
+            4 => ack(deco()),
             1 => Just(Ev::PollStream { sel: 0 }),
         ]
         .boxed();
@@ -589,11 +603,21 @@ impl Property for C09 {
             Ev::In(Inbound::Pubrel { pid: 1, known: false }),
             Ev::In(Inbound::Pubrel { pid: 2, known: false }),
         ];
-        Box::new(sequences(alphabet, tier.pick(6, 8), worker, workers).map(|evs| {
+        // the client's own QoS 2 exchange runs on the same identifier value (the SUBSCRIBE of the
+        // prologue took 1, the first publish gets 2)
+        let both = vec![
+            p(2, false),
+            p(2, true),
+            Ev::In(Inbound::Pubrel { pid: 2, known: false }),
+            Ev::Start { h: 0, kind: OpKind::Pub2, settle: false, solo: false },
+            Ev::In(Inbound::Ack { sel: 0, deco: Deco::default() }),
+        ];
+        let mk = |evs: Vec<Ev>| {
             let mut events = c09_prologue();
             events.extend(evs);
             Scenario { receive_max: None, max_packet_size: None, id_offset: 0, prologue: 0, events }
-        }))
+        };
+        Box::new(sequences(alphabet, tier.pick(6, 8), worker, workers).map(mk).chain(sequences(both, tier.pick(7, 9), worker, workers).map(mk)))
     }
 
     fn assumptions() -> Vec<String> {
@@ -643,7 +667,7 @@ impl Property for C10 {
             1 => sel().prop_map(|sel| Ev::DropOp { sel }),
         ]
         .boxed();
-        scenario(rm_small(), ev, 1..tier.pick(60, 200))
+        no_inbound(scenario(rm_small(), ev, 1..tier.pick(60, 200)))
     }
 
     fn cases(tier: Tier) -> u32 {
